@@ -2177,14 +2177,15 @@ static void compile_stmt(CG *cg, ASTNode *node) {
         uint16_t var_slot = local_add(cg, node->as.for_stmt.var_name, node->line);
         emit_op(cg, OP_STORE_LOCAL, (int)var_slot);
 
-        /* Compile body */
-        compile_stmt(cg, node->as.for_stmt.body);
-
-        /* Increment counter */
+        /* Increment counter before the body: `continue` jumps to the loop
+         * top and must go on with the next element */
         emit_op(cg, OP_LOAD_LOCAL, (int)idx_slot);
         emit_op(cg, OP_PUSH_I64, (int64_t)1);
         emit_op(cg, OP_ADD);
         emit_op(cg, OP_STORE_LOCAL, (int)idx_slot);
+
+        /* Compile body */
+        compile_stmt(cg, node->as.for_stmt.body);
 
         /* Jump back to top */
         uint32_t jmp_instr = cg->code_size;
